@@ -445,6 +445,9 @@ def gen_case(rng, quick=True):
                 rng.choice(groups).append([])
         fac["groups"] = groups
         fac["own_recs"] = rng.random() < 0.5
+        # a different (equally valid) measurement of the same groups: an X on one qubit after the basis change flips that
+        # outcome bit and the group's reconstructors undo it — another measurement factory for the same labels
+        fac["flip"] = rng.randrange(n) if rng.random() < 0.35 else None
     ak = rng.choice(["equi", "prop", "prop", "wr", "fixed", "fixed"]) if fk == "list" else rng.choice(["equi", "prop", "prop", "wr"])
     al = {"kind": ak, "unit": rng.choice([1, 1, 1, 2, 5, 10, 0 if rng.random() < 0.1 else 1]), "seed": rng.randint(0, 10**6)}
     total = rng.choice([0, 1, 2, 3, 4, 5, 8, 10, 17, 50, 100, 1000, 10000])
@@ -537,11 +540,20 @@ def build_and_run(spec, route="direct"):
             for g in spec["factory"]["groups"]:
                 ps = frozenset(lab(p) for p in g)
                 mc = () if ps == {PAULI_IDENTITY} else bitwise_commuting_pauli_measurement_circuit(ps)
-                rf = bitwise_pauli_reconstructor_factory
+                fq = spec["factory"].get("flip")
+                if fq is not None and ps != {PAULI_IDENTITY}:
+                    mc = tuple(mc) + (QC.X(fq),)
+
+                    def base(pauli, _m=1 << fq):
+                        r0 = bitwise_pauli_reconstructor_factory(pauli)
+                        return lambda bits: r0(bits ^ _m)
+                else:
+                    base = bitwise_pauli_reconstructor_factory
+                rf = base
                 if spec["factory"].get("own_recs"):
                     # a reconstructor factory that only knows the labels of its own group
-                    def rf(pauli, _ps=ps):
-                        return bitwise_pauli_reconstructor_factory(pauli) if pauli in _ps else (lambda bits: 0)
+                    def rf(pauli, _ps=ps, _base=base):
+                        return _base(pauli) if pauli in _ps else (lambda bits: 0)
                 ms.append(CommutablePauliSetMeasurementTuple(ps, mc, rf))
         rec.measurements = ms
         return ms
@@ -766,8 +778,10 @@ def check_recon(ctx, info):
             for q, _ in lbl:
                 mask |= 1 << q
             r = m.pauli_reconstructor_factory(lbl)
+            fq = info["spec"]["factory"].get("flip")
+            fm = (1 << fq) if fq is not None else 0  # the flipped-outcome factory: parity of the un-flipped bits
             for k in range(1 << info["spec"]["n"]):
-                if int(r(k)) != (1 if bin(k & mask).count("1") % 2 == 0 else -1):
+                if int(r(k)) != (1 if bin((k ^ fm) & mask).count("1") % 2 == 0 else -1):
                     ctx.disagree("reconstructor-semantics", str(lbl), int(r(k)), "parity on support")
                     return
 
